@@ -2,6 +2,7 @@ import Driver.C13
 import Qryn.Read.ConfinePromLabels
 import Qryn.LogQL.PlannerMetric
 import Qryn.Read.TailInline
+import Qryn.Tempo.SearchCtl
 /-! line protocol of C13's signal half and of the Prometheus metadata statements -/
 namespace Driver.C13Signal
 open Qryn Qryn.Sql Qryn.Confine Qryn.Prom
@@ -59,6 +60,13 @@ def handle : List String → Option String
       let q : LogQL.LogQuery := ⟨← Driver.C07.list? Driver.C07.matcher? ms, ← Driver.C07.list? Driver.C07.stage? st⟩
       some (hexOut (renderSelInline (LogQL.planLog c q)))
     | _ => none
+  -- `parseTraceSearchParams`: what `start` / `end` (seconds) become
+  | ["c13tctl", s, e] => do
+    let show_ : Tempo.CtlEnd → String := fun | .refused => "refused" | .default_ => "default" | .ns n => toString n
+    match Tempo.ctlSecond (← s.toInt?), Tempo.ctlSecond (← e.toInt?) with
+    | .refused, _ => some "refused"
+    | _, .refused => some "refused"
+    | a, c => some (show_ a ++ " " ++ show_ c)
   | "c13sigmetric" :: sig :: args => do
     let (c, rest) ← Driver.C08.mctx? args
     let (q, rest') ← Driver.C08.query? rest
